@@ -138,3 +138,23 @@ reg("C21", "model_checking",
     "Exhaustive for 4 (quick) / 8 (thorough) small programs over a 2-tuple universe per input relation and <=4 / <=6 state-changing calls (851 / 3917 spec states, every transition replayed once on the real code: 2133 / 15442 call sequences, contains/size/iterate compared after every call); "
     "for generator programs (48 / 803 EDB cases) API insert+run, purge and re-run, and runAll from fact files are compared with TLC's model.",
     EVAL_NOTE + " Results of runs on stale derived relations are compared but only reported as MODEL-DRIFT (the property is silent there); programs with compiler-introduced relations are excluded from the graph part; eqrel, float and unsigned columns not covered.", "DESIGN.md 9 C21")
+reg("C13", "model_checking",
+    "TLA+ verdict function (spec/Static.tla: stratification by transitive closure, scoped least-fixpoint groundedness after Ground.cpp/Aggregate.cpp, kind-level typing); TLC (MC_Static) enumerates all 2-relation precedence graphs, 3-relation graphs (sampled quick / all up to renaming thorough), all 4025 clause shapes over a 15-literal alphabet, and generator programs with one injected defect; every program is run by the guarded souffle and its life-cycle trace, exit status and the expected verdict are validated by TLC against Driver/DriverTrace",
+    "Exhaustive for the 2-relation graphs with edge labels {none,+,not,agg} and for clause shapes up to 3 body literals (6348 programs in quick); accept => exit 0 without error diagnostic, reject => exit 1 with diagnostic, no output file and no executed statement in the hook trace.",
+    "Type verdicts only in unambiguous cases (number vs symbol, record arity). Trusted: TLC, the renderer, hook H7 events. Diagnostic class differing from the spec's reason is MODEL-DRIFT, not a violation.", "DESIGN.md 9 C13")
+reg("C14", "exploration",
+    "spec/Mutate.tla: TLC enumerates every single token insertion, deletion and substitution (47-token alphabet including raw-byte pseudo-tokens) of each seed program plus -simulate walks of 4 mutations; raw-byte insertions inside tokens; every run's hook trace plus process status is validated by TLC against Driver/DriverTrace, which has no transition for a signal, an assertion, an internal error, a timeout, or status 1 without a diagnostic",
+    "Small-scope enumeration around valid programs (13 183 single mutants of 2 seeds + walks + 600 raw-byte insertions in quick; 40 seeds in thorough): souffle must end with a run or with diagnostics and exit status 1, within 20 s CPU.",
+    "Not coverage-guided fuzzing; says nothing about memory safety short of a crash. distinct_nontrivial counts distinct mutants that got past the parser.", "DESIGN.md 9 C14")
+reg("C15", "exploration",
+    "TLA+ catalogue of construct kinds (spec/Syntax.tla); TLC enumerates a probe per kind and variant, all expression trees with <=2 operators over the full operator alphabet (<=3 over a reduced alphabet in thorough) with values from Functors.tla, seeded compositions, plus generator programs with Datalog.tla models; each program goes through real print -> parse -> print fixpoint -> RAM_initial equality (hook H3) -> outputs equal to the TLC value; findings keyed by construct kind",
+    "228 probes over 126 construct kinds, 760 expression trees, 40 compositions and 14 generator programs in quick: the printed form must parse, printing must be a fixpoint, the RAM of the printed program must equal the RAM of the original, and outputs must equal the value TLC computed.",
+    "30 construct kinds of the tree are listed known findings (programs using them are checked after the listed spelling is restored; string/directive escapes, the unsigned suffix and prefix-under-^ mask them instead); lattices, user-defined aggregates and the preprocessor are outside the catalogue. Equal initial RAM is taken as equal meaning.", "DESIGN.md 9 C15")
+reg("C27", "model_checking",
+    "TLC model-checks spec/BrieImpl.tla (SparseArray root/first info with odd-pointer lock-out, raiseLevel, cell CAS, bitmap CAS; BITS small) over all interleavings; covering walks are replayed on the real SparseArray/SparseBitMap; call/return histories of Trie<1..4> under the cooperative scheduler and OpenMP stress, plus a query phase, are validated by TLC against spec/TupleSetAbs.tla",
+    "All interleavings of 2-3 threads x 2 inserts on small sparse arrays: no lost element, first is the minimum, root info consistent when the version is even; every real history (systematic, random, stress; small, sparse and negative keys) followed by iteration/contains/getBoundaries/bounds/size/partition queries must be accepted by TupleSetAbs.",
+    COOP_NOTE + " Negative keys are a recorded known finding (sign extension into the 64-bit index).", "DESIGN.md 9 C27")
+reg("C28", "model_checking",
+    "TLC enumerates spec/EqRelImpl.tla (union-find forest + stale flag + cached partition) over small element sets; covering call sequences are replayed on the real EquivalenceRelation comparing contains/size/all iteration kinds/partition after each call; sequential, staleness-directed, random and concurrent-insert histories are validated by TLC against spec/EqRelAbs.tla",
+    "Every (cache state, operation) transition over elements {MIN,-1,0,MAX} is replayed on the real object; for every pair of partitions of subsets of the domain the history read - insertAll/extendAndInsert - full query battery is judged; concurrent insert phases (1-8 threads) under the cooperative scheduler and as stress are followed by queries; all judged by the closure semantics of EqRelAbs (size = sum of squared class sizes, each pair listed once).",
+    COOP_NOTE + " Insert's boolean result under concurrency is a don't-care.", "DESIGN.md 9 C28")
